@@ -2041,14 +2041,21 @@ def _range_as_iter(E, st, frame, t, v):
     """a half-open integer Range used as an iterator: (element interval, length[, the elements])"""
     tyid = arg_ty(E, frame, t, 0)
     ty = E.types.get(tyid) if tyid is not None else None
-    if ty is None or ty['k'] != 'adt' or ty['name'] not in ('core::ops::Range', 'std::ops::Range', 'core::ops::range::Range'):
+    if ty is None or ty['k'] != 'adt' or ty['name'] not in ('core::ops::Range', 'std::ops::Range', 'core::ops::range::Range',
+                                                             'core::ops::RangeInclusive', 'std::ops::RangeInclusive', 'core::ops::range::RangeInclusive'):
         return v
+    incl = 'Inclusive' in ty['name']
     v = st.resolve(E.expand(v))
-    if v == BOT or v[0] != 'A' or len(v[1]) != 2:
+    if v == BOT or v[0] != 'A' or len(v[1]) != (3 if incl else 2):
         return v
     lo, hi = E.scalar(st, v[1][0]), E.scalar(st, v[1][1])
     if lo[0] != 'I' or hi[0] != 'I':
         return v
+    if incl:
+        ex = E.scalar(st, v[1][2])
+        if not (ex[0] == 'I' and ex[1] == ex[2] == 0) or hi[2] >= (1 << 62):
+            return v            # possibly exhausted / unbounded: leave it to the generic model
+        hi = mk_int(hi[1] + 1, hi[2] + 1)
     ln = mk_int(max(hi[1] - lo[2], 0), max(hi[2] - lo[1], 0))
     el = mk_int(lo[1], max(hi[2] - 1, lo[1]))
     if lo[1] == lo[2] and hi[1] == hi[2] and 0 < hi[1] - lo[1] <= 40:
@@ -2123,6 +2130,13 @@ def iter_adaptors(E, frame, b, t, sts, c, quiet):
             if item in ('cloned', 'copied'):
                 e2 = deref(E, s2, el)
             res = ('O', 'iter', (e2, ln)) if item != 'by_ref' else args[0]
+            its_ = _iter_items(args[0])
+            if item == 'rev' and its_ is not None and len(args[0][2]) == 4:
+                rest = tuple(reversed(its_[args[0][2][3]:]))
+                res = ('O', 'iter', (e2, const_int(len(rest)), rest, 0))
+            elif item in ('cloned', 'copied') and its_ is not None and len(args[0][2]) == 4:
+                rest = tuple(deref(E, s2, x) for x in its_[args[0][2][3]:])
+                res = ('O', 'iter', (e2, const_int(len(rest)), rest, 0))
         elif item in ('skip', 'take', 'step_by'):
             res = ('O', 'iter', (el, mk_int(0, ln[2])))
         elif item == 'enumerate':
@@ -2189,6 +2203,52 @@ def iter_consumers(E, frame, b, t, sts, c, quiet):
                 E.write_dest(s2, frame, t, res)
                 out.append(s2)
                 continue
+        flt0 = _iter_filtered(itv)
+        if item == 'fold' and cls and flt0 is not None and len(args) > 2 and len(flt0[0]) - flt0[1] <= 40:
+            # literal container (possibly behind a lazy filter): the accumulator is threaded through the closure
+            # element by element; it lives in a scratch cell so that states can be merged between elements
+            its, pos0, pend = flt0
+            ci, body = cls[0]
+            fbody = E.prog.bodies.get(pend[1]) if pend is not None else None
+            acell = ('h', E.site(frame, b, 'fold-acc'))
+            s0 = s2
+            s0.cells[acell] = args[1]
+            cur = [s0]
+            n_it = 0
+            for it in its[pos0:]:
+                n_it += 1
+                nxt = []
+                for s_c in cur:
+                    takes = [s_c]
+                    if pend is not None:
+                        takes = []
+                        cell = ('h', E.site(frame, b, ('flt', n_it)))
+                        s_c.cells[cell] = it
+                        for s_f, r_f in E.run_closure_once(frame, b, t, s_c, None, fbody, quiet, [('R', cell, (), False)], env_val=pend[2]):
+                            for s_g, truth in split_bool(E, s_f, r_f):
+                                if truth is None:
+                                    takes.append(s_g.copy())
+                                    nxt.append(s_g)
+                                elif truth:
+                                    takes.append(s_g)
+                                else:
+                                    nxt.append(s_g)
+                    for s_t in takes:
+                        acc = s_t.cells.get(acell)
+                        for s_f, r_f in E.run_closure_once(frame, b, t, s_t, ci, body, quiet, [acc, it]):
+                            if r_f != BOT:
+                                s_f.cells[acell] = r_f
+                                nxt.append(s_f)
+                cur = E.limit(nxt, site=(frame.pathid, b, ('fold', n_it)), depth=frame.depth) if len(nxt) > 1 else nxt
+                if not cur:
+                    break
+            for s_c in cur:
+                acc = s_c.cells.pop(acell, None)
+                if acc is None:
+                    continue
+                E.write_dest(s_c, frame, t, acc)
+                out.append(s_c)
+            continue
         flt = _iter_filtered(itv)
         if flt is not None and item in ('find', 'find_map') and cls and len(flt[0]) - flt[1] <= 40:
             # literal container: run the search element by element, one state per way it can end
@@ -2800,3 +2860,29 @@ def vec_from_elem(E, st, frame, b, t, c, args):
     if n[1] == n[2] and 0 < n[1] <= 40:
         items = tuple(el for _ in range(n[1]))
     return ('S', n, el, items)
+
+
+@model(['split_at', 'split_at_mut'], pred=_seq_self)
+def seq_split_at(E, st, frame, b, t, c, args):
+    """<[T]>::split_at(mid): panics if mid > len; two sub-slices (copies of the abstract content)"""
+    usz = E.types.by_name('usize')
+    seq, lv = seq_of(E, st, args[0], pointee_ty(E, frame, t, 0))
+    mid = E.scalar(st, args[1], usz)
+    if seq[0] != 'S' or mid[0] != 'I':
+        oblig(E, frame, b, t, False, 'split_at on an unknown slice / index')
+        return E.expand(('T', E.dest_ty(frame, t), E.site(frame, b, 'spl')))
+    ln = st.resolve(seq[1])
+    ok = mid[2] <= ln[1] or (mid[4] is not None and ln[4] is not None and E.entails_le(st, mid[4], ln[4]))
+    oblig(E, frame, b, t, ok, 'split_at: mid %s may exceed len %s' % (show_val(mid), show_val(ln)))
+    mut = c['item'] == 'split_at_mut'
+    i1 = i2 = None
+    if seq[3] is not None and mid[1] == mid[2] and mid[1] <= len(seq[3]):
+        i1, i2 = seq[3][:mid[1]], seq[3][mid[1]:]
+    l1 = mid
+    l2 = mk_int(max(ln[1] - mid[2], 0), max(ln[2] - mid[1], 0))
+    if ln[4] is not None and mid[4] is not None and l2[1] != l2[2]:
+        l2 = E.reg(mk_int(l2[1], l2[2], 0, A.mkterm('Sub', ln[4], mid[4])))
+    c1, c2 = ('h', E.site(frame, b, 'spl1')), ('h', E.site(frame, b, 'spl2'))
+    st.cells[c1] = ('S', l1, seq[2], i1)
+    st.cells[c2] = ('S', l2, seq[2], i2)
+    return ('A', (('R', c1, (), mut), ('R', c2, (), mut)))
